@@ -592,3 +592,23 @@ Proof.
   intros Ht H. unfold loop_retag. rewrite drop_last_render by assumption. rewrite H.
   rewrite (render_snoc t (N.succ c) Ht). reflexivity.
 Qed.
+
+(* [loop_step_thm] read per policy *)
+Lemma loop_step_all insts arr :
+  Forall inst_ok insts -> NoDup (map ikey insts) -> Permutation arr (all_larr insts) ->
+  Permutation (lout (loop_run OutAll (arr ++ [LTerm Completed])))
+              (map (fun i => ListTok (render (fst i)) (snd i)) insts).
+Proof. intros H1 H2 H3. exact (proj1 (proj2 (proj2 (loop_step_thm OutAll insts arr H1 H2 H3)))). Qed.
+Lemma loop_step_last insts arr :
+  Forall inst_ok insts -> NoDup (map ikey insts) -> Permutation arr (all_larr insts) ->
+  Permutation (lout (loop_run OutLast (arr ++ [LTerm Completed])))
+              (map (fun i => retag (last (snd i) (Tok "0" "null")) (render (fst i))) insts).
+Proof. intros H1 H2 H3. exact (proj1 (proj2 (proj2 (loop_step_thm OutLast insts arr H1 H2 H3)))). Qed.
+Lemma loop_no_early_exit_under_order pol insts arr :
+  Forall inst_ok insts -> NoDup (map ikey insts) -> Permutation arr (all_larr insts) ->
+  lfinal (loop_run pol arr) = None /\
+  Permutation (lout (loop_run pol arr)) (map (lexpected pol) insts).
+Proof.
+  intros H1 H2 H3. destruct (loop_step_thm pol insts arr H1 H2 H3) as (A & B & C & _).
+  split; [exact A|]. rewrite <- B. exact C.
+Qed.
